@@ -191,11 +191,28 @@ def t_enums(P):
     elif which == 4:
         a.g.name = "empty_graph"
     # which == 5: nothing populated
-    g = H.make_graph([n], "g", [vi], [H.make_tensor_value_info("y", TP.FLOAT, None)], initializer=[t])
+    n2 = H.make_node("Identity", ["y"], ["z"], name="n2")
+    # value-info of an intermediate value and of the (non-input) initializer: typed / explicitly UNDEFINED / without any type
+    extra = []
+    for nm_, sel in (("y", operator.index(P["vi_mid"])), ("w", operator.index(P["vi_init"]))):
+        if sel == 0:
+            continue
+        v2 = onnx.ValueInfoProto()
+        v2.name = nm_
+        if sel == 1:
+            v2.type.tensor_type.elem_type = et
+        elif sel == 2:
+            v2.type.tensor_type.elem_type = 0
+            v2.type.tensor_type.shape.dim.add().dim_value = 2
+        elif sel == 3:
+            v2.type.sequence_type.elem_type.tensor_type.elem_type = 0
+        # sel == 4: a value-info entry with a name and no type at all
+        extra.append(v2)
+    g = H.make_graph([n, n2], "g", [vi], [H.make_tensor_value_info("z", TP.FLOAT, None)], initializer=[t], value_info=extra)
     return H.make_model(g, opset_imports=[H.make_opsetid("", 18)], ir_version=10)
 
 
-R_ENUMS = dict(tensor_dt=(0, len(ENUMS) - 1), elem_type=(0, len(ENUMS) - 1), attr_type=(0, 14), attr_field=(0, 5), data_location=(0, 1))
+R_ENUMS = dict(tensor_dt=(0, len(ENUMS) - 1), elem_type=(0, len(ENUMS) - 1), attr_type=(0, 14), attr_field=(0, 5), data_location=(0, 1), vi_mid=(0, 4), vi_init=(0, 4))
 
 EXT = [("location", "w.bin"), ("location", "/etc/passwd"), ("location", "../../outside.bin"), ("location", ""), ("offset", "-1"), ("offset", "abc"), ("offset", "99999999999999999999"),
        ("length", "-5"), ("length", "1e9"), ("length", "7"), ("checksum", "zz"), ("unknown_key", "v"), ("location", "w.bin\x00x")]
@@ -478,7 +495,10 @@ def keys_for(tier):
     # function slots symbolic, body slots fixed
     keys.append(("names-sub", (("si0", 1), ("so0", 2), ("sgi", 1), ("sgo", 2), ("sinit", 3), ("ifo", 3), ("go0", 3), ("has_in", 0), ("has_init", 0), ("n0o0", 1))))
     for a in range(len(ENUMS)):
-        keys.append(("enums", (("tensor_dt", a),)))
+        keys.append(("enums", (("tensor_dt", a), ("vi_mid", 0), ("vi_init", 0))))
+    for a in (0, 1, 11):                                   # undefined / float / unknown tensor type x every value-info variant
+        for f_ in (0, 5):
+            keys.append(("enums", (("tensor_dt", a), ("attr_type", 2), ("attr_field", f_), ("elem_type", 1))))
     for a in range(6):
         keys.append(("tensors", (("storage", a),)))
     keys.append(("structure", ()))
